@@ -225,7 +225,7 @@ def decorate(rng, prog):
             if h["kind"] != "reply" and len(h["args"]) >= 2 and rng.random() < 0.15:
                 a = h["args"][rng.randrange(len(h["args"]) - 1)]
                 if not a.get("attrs"):
-                    a["attrs"] = [rng.choice(["doc = \" forwarded doc\"", "schemars(description = \"x\")", "cfg_attr(any(), serde(skip))", "serde(bound = \"\")"])]
+                    a["attrs"] = [rng.choice(["doc = \" forwarded doc\"", "schemars(description = \"x\")", "cfg_attr(any(), serde(skip))", "cfg_attr(any(), serde(bound = \"\"))"])]
         if part["id"] != "c" and rng.random() < 0.5:
             part["custom_flags_reversed"] = True
         if part["id"] != "c" and rng.random() < 0.3:
